@@ -510,7 +510,7 @@ func main() {
 	}
 	wit := witnessBlocks()
 	var witBases []int
-	for _, n := range []string{"w_inflated_labels", "w_zero_dim", "w_index_outside", "w_no_values", "w_packed_value", "w_small_valid"} {
+	for _, n := range []string{"w_inflated_labels", "w_zero_dim", "w_index_outside", "w_no_values", "w_packed_value", "w_small_valid", "w_many_labels"} {
 		witBases = append(witBases, addBase("block:"+n, wit[n]))
 	}
 	sparseA := addBase("sparse:3-spans", rleBody([]span{{0, 1, 1, 4}, {0, 2, 1, 4}, {2, 3, 1, 2}}, 3))
@@ -658,6 +658,7 @@ func main() {
 		{Base: witBases[2], Mut: mut{Op: "none"}, Indexing: true},
 		{Base: witBases[3], Mut: mut{Op: "none"}, Indexing: true},
 		{Base: witBases[5], Mut: mut{Op: "none"}, Indexing: true},
+		{Base: witBases[6], Mut: mut{Op: "none"}, Indexing: true},
 	}
 	if o.Thorough() {
 		for i := 0; i < 40; i++ {
@@ -699,6 +700,9 @@ func witnessBlocks() map[string][]byte {
 	m["w_index_outside"] = h("020000000100000001000000020000000500000000000000060000000000000001000100000000004d000000")
 	m["w_no_values"] = h("020000000100000001000000020000000500000000000000060000000000000002000100000000000100000000000000")
 	m["w_packed_value"] = append(h("020000000100000001000000030000000500000000000000060000000000000007000000000000000100030000000000000000000100000002000000"), bytes.Repeat([]byte{255}, 128)...)
+	// 2x1x1 sub-blocks, labels {5,6}; the first sub-block declares 513 labels (one more than it has
+	// voxels), with all the indices (zero) and packed values (10 bits each, zero) it would need
+	m["w_many_labels"] = append(h("0200000001000000010000000200000005000000000000000600000000000000"+"01020100"), make([]byte, 514*4+640)...)
 	m["w_small_valid"] = append(h("020000000100000001000000020000000500000000000000060000000000000002000100000000000100000001000000"), bytes.Repeat([]byte{170}, 64)...)
 	return m
 }
